@@ -2,19 +2,18 @@
   Property C09 — multi-frequency steady state is the superposition of single-frequency solutions.
 
   Model: CC/Model/MultiFreq.lean (frequency list, source gates, line sums, spectrum mirror).
-    C09_freqs_sorted, C09_freqs_mem        the list is strictly increasing; membership
-                                           characterisation (k = 0 included)
-    C09_once_statement                     "every physical frequency is analysed once" — FALSE on the
-    C09_once_counterexample                unchanged code (frequencies merged by exact equality);
-    C09_once_partial                       true when distinct listed frequencies are > 2·w_res apart
+    C09_freqs_sorted, C09_freqs_mem        any two analysed frequencies are more than w_res apart (increasing);
+                                           every analysed frequency is a source frequency / harmonic (k = 0
+                                           included) and every source frequency is represented within w_res
+    C09_once_statement                     "no source contributes one harmonic at two analysed frequencies" — after
+    C09_once_counterexample                fix 6e56e9e still FALSE for chains (0, 0.0009, 0.0011 with w_res 0.001);
+    C09_once_partial                       true when distinct analysed frequencies are > 2·w_res apart
     C09_line                               the one-sided series carries the per-frequency phasors
     C09_time_function, C09_time_value      |X|·cos(θ + arg X) = Re(X·e^{jθ}) = X.re·cos θ − X.im·sin θ  (over ℂ)
     C09_kcl_instant                        KCL per frequency ⇒ KCL for the time functions at every instant
     C09_superpose_sources                  line-wise superposition ⇒ superposition of the time functions
     C09_source_reconstruction              a line A·e^{jφ} contributes A·cos(k w0 t + φ)
-    C09_two_sided_mirror                   the mirror of solution.py:117-119 applied to line values
-    C09_two_sided_dc_counterexample        … halves the DC line (c(0) = X₀/2 ≠ X₀)
-    C09_two_sided_as_written_counterexample  … and as written it raises for every non-empty list
+    C09_two_sided, _dc, _lines             `_series` after fix 0a2e57e: c(±w_k) = X_k/2 resp. conj X_k/2, c(0) = X₀
 -/
 import CC.Proofs.MultiFreqLemmas
 import Mathlib.Analysis.SpecialFunctions.Complex.Arg
@@ -44,101 +43,154 @@ theorem frequencies_ok_of_all {wmax : ℚ} {cs : List FComp} {l : List ℚ}
         · exact ⟨ld, hd⟩
         · exact ih hr hc'
 
-/-- **C09 (frequency list, order).**  The analysed frequencies are strictly increasing — in
-particular no frequency is listed twice. -/
-theorem C09_freqs_sorted (cs : List FComp) (wmax : ℚ) (ws : List ℚ)
-    (h : frequencyComponents cs wmax = .ok ws) : ws.Pairwise (· < ·) := by
-  unfold frequencyComponents at h
-  cases hl : allFrequencies wmax cs with
-  | error e => rw [hl] at h; cases h
-  | ok l =>
-    rw [hl] at h; cases h
-    apply pairwise_lt_of_le_of_nodup (sortQ_sorted _)
-    exact (sortQ_perm _).nodup_iff.mpr (nodup_dedupL l)
-
-/-- **C09 (frequency list, content).**  `w` is analysed iff it is the frequency of a
-single-frequency source, or a harmonic `k·w0` (`k = 0, 1, 2, …`) of a periodic source with
-`k ≤ ⌊w_max/w0⌋` — for `w0 > 0` that is `k·w0 ≤ w_max` (`harmonic_le_iff`). -/
-theorem C09_freqs_mem (cs : List FComp) (wmax : ℚ) (ws : List ℚ)
-    (h : frequencyComponents cs wmax = .ok ws) (w : ℚ) :
-    w ∈ ws ↔ ∃ c ∈ cs, ∃ w0, c.w = some w0 ∧
+/-- membership in a component's own list -/
+theorem mem_frequencies {wmax : ℚ} {c : FComp} {lc : List ℚ} (h : c.frequencies wmax = .ok lc) (w : ℚ) :
+    w ∈ lc ↔ ∃ w0, c.w = some w0 ∧
       ((c.isPeriodic = false ∧ w = w0) ∨
        (c.isPeriodic = true ∧ ∃ k : ℕ, (k : ℤ) ≤ (wmax / w0).floor ∧ w = w0 * (k : ℚ))) := by
+  unfold FComp.frequencies at h
+  cases hcw : c.w with
+  | none => rw [hcw] at h; cases h; simp
+  | some w0 =>
+    rw [hcw] at h
+    by_cases hp : c.isPeriodic = true
+    · simp only [hp, if_true] at h
+      by_cases h0 : w0 = 0
+      · simp [h0] at h
+      · simp only [h0, if_false] at h
+        cases h
+        rw [mem_harmonicList]
+        constructor
+        · intro hk; exact ⟨w0, rfl, Or.inr ⟨hp, hk⟩⟩
+        · rintro ⟨w1, e, hcase⟩
+          cases e
+          rcases hcase with ⟨hf, _⟩ | ⟨_, hk⟩
+          · rw [hp] at hf; cases hf
+          · exact hk
+    · simp only [hp, if_false] at h
+      cases h
+      simp only [List.mem_singleton]
+      constructor
+      · intro e; exact ⟨w0, rfl, Or.inl ⟨by simpa using hp, e⟩⟩
+      · rintro ⟨w1, e, hcase⟩
+        cases e
+        rcases hcase with ⟨_, e⟩ | ⟨hf, _⟩
+        · exact e
+        · exact absurd hf hp
+
+/-- `f` is a frequency the sources of the circuit contain: the frequency of a single-frequency
+source, or a harmonic `k·w0` (`k = 0, 1, 2, …`) of a periodic source with `k ≤ ⌊w_max/w0⌋`
+(for `w0 > 0`: `k·w0 ≤ w_max`, `harmonic_le_iff`) -/
+def IsSourceFrequency (cs : List FComp) (wmax f : ℚ) : Prop :=
+  ∃ c ∈ cs, ∃ w0, c.w = some w0 ∧
+    ((c.isPeriodic = false ∧ f = w0) ∨
+     (c.isPeriodic = true ∧ ∃ k : ℕ, (k : ℤ) ≤ (wmax / w0).floor ∧ f = w0 * (k : ℚ)))
+
+theorem mem_all_iff {wmax : ℚ} {cs : List FComp} {l : List ℚ} (hl : allFrequencies wmax cs = .ok l) (f : ℚ) :
+    f ∈ l ↔ IsSourceFrequency cs wmax f := by
+  rw [mem_allFrequencies hl]
+  constructor
+  · rintro ⟨c, hc, lc, hlc, hw⟩
+    exact ⟨c, hc, (mem_frequencies hlc f).mp hw⟩
+  · rintro ⟨c, hc, hcase⟩
+    obtain ⟨lc, hlc⟩ := frequencies_ok_of_all hl hc
+    exact ⟨c, hc, lc, hlc, (mem_frequencies hlc f).mpr hcase⟩
+
+/-- **C09 (frequency list, order and separation).**  For a resolution `w_res ≥ 0` any two analysed
+frequencies are more than `w_res` apart, in increasing order — in particular the list is
+strictly increasing and no physical frequency is analysed twice. -/
+theorem C09_freqs_sorted (cs : List FComp) (wmax wres : ℚ) (hres : 0 ≤ wres) (ws : List ℚ)
+    (h : frequencyComponents cs wmax wres = .ok ws) : ws.Pairwise (fun a b => wres < b - a) := by
   unfold frequencyComponents at h
   cases hl : allFrequencies wmax cs with
   | error e => rw [hl] at h; cases h
   | ok l =>
     rw [hl] at h; cases h
-    rw [mem_sortQ, mem_dedupL, mem_allFrequencies hl]
+    exact mergeRes_separated wres hres _
+
+/-- **C09 (frequency list, content).**  Every analysed frequency is a source frequency (k = 0 of a
+periodic source included), and every source frequency `f` is represented by an analysed frequency
+`k ≤ f` with `f − k ≤ w_res`. -/
+theorem C09_freqs_mem (cs : List FComp) (wmax wres : ℚ) (hres : 0 ≤ wres) (ws : List ℚ)
+    (h : frequencyComponents cs wmax wres = .ok ws) :
+    (∀ w ∈ ws, IsSourceFrequency cs wmax w) ∧
+    (∀ f, IsSourceFrequency cs wmax f → ∃ k ∈ ws, k ≤ f ∧ f - k ≤ wres) := by
+  unfold frequencyComponents at h
+  cases hl : allFrequencies wmax cs with
+  | error e => rw [hl] at h; cases h
+  | ok l =>
+    rw [hl] at h; cases h
     constructor
-    · rintro ⟨c, hc, lc, hlc, hw⟩
-      refine ⟨c, hc, ?_⟩
-      unfold FComp.frequencies at hlc
-      cases hcw : c.w with
-      | none => rw [hcw] at hlc; cases hlc; simp at hw
-      | some w0 =>
-        rw [hcw] at hlc
-        refine ⟨w0, rfl, ?_⟩
-        by_cases hp : c.isPeriodic = true
-        · simp only [hp, if_true] at hlc
-          by_cases h0 : w0 = 0
-          · simp [h0] at hlc
-          · simp only [h0, if_false] at hlc
-            cases hlc
-            exact Or.inr ⟨hp, (mem_harmonicList w0 wmax w).mp hw⟩
-        · simp only [hp, if_false] at hlc
-          cases hlc
-          simp only [List.mem_singleton] at hw
-          exact Or.inl ⟨by simpa using hp, hw⟩
-    · rintro ⟨c, hc, w0, hcw, hcase⟩
-      -- the whole list was computed without an exception, so this component's list exists
-      have hex : ∃ lc, c.frequencies wmax = .ok lc := frequencies_ok_of_all hl hc
-      obtain ⟨lc, hlc⟩ := hex
-      refine ⟨c, hc, lc, hlc, ?_⟩
-      unfold FComp.frequencies at hlc
-      rw [hcw] at hlc
-      rcases hcase with ⟨hp, rfl⟩ | ⟨hp, hk⟩
-      · simp only [hp, Bool.false_eq_true, if_false] at hlc
-        cases hlc; simp
-      · simp only [hp, if_true] at hlc
-        by_cases h0 : w0 = 0
-        · simp [h0] at hlc
-        · simp only [h0, if_false] at hlc
-          cases hlc
-          exact (mem_harmonicList w0 wmax w).mpr hk
+    · intro w hw
+      exact (mem_all_iff hl w).mp (mem_sortQ.mp (mem_mergeRes hw))
+    · intro f hf
+      have hfl : f ∈ sortQ l := mem_sortQ.mpr ((mem_all_iff hl f).mpr hf)
+      have hsorted := sortQ_sorted l
+      cases hsl : sortQ l with
+      | nil => rw [hsl] at hfl; simp at hfl
+      | cons a t =>
+        rw [hsl] at hfl hsorted
+        obtain ⟨ha, ht⟩ := List.pairwise_cons.mp hsorted
+        rcases List.mem_cons.mp hfl with rfl | hft
+        · exact ⟨f, by simp [mergeRes], le_refl _, by rw [sub_self]; exact hres⟩
+        · rcases mergeFrom_covers wres hres a t ht ha f hft with h1 | ⟨k, hk, hk2⟩
+          · exact ⟨a, by simp [mergeRes], ha f hft, h1⟩
+          · exact ⟨k, by simp [mergeRes, hk], hk2⟩
 
 /-! ## every physical frequency is analysed once -/
+
+theorem insertQ_le {a b : ℚ} (h : a ≤ b) (l : List ℚ) : insertQ a (b :: l) = a :: b :: l := by
+  simp [insertQ, h]
+
+theorem mergeFrom_keep {wres last w : ℚ} (h : wres < w - last) (l : List ℚ) :
+    mergeFrom wres last (w :: l) = w :: mergeFrom wres w l := by
+  simp [mergeFrom, h]
+
+theorem mergeFrom_drop {wres last w : ℚ} (h : ¬ wres < w - last) (l : List ℚ) :
+    mergeFrom wres last (w :: l) = mergeFrom wres last l := by
+  simp [mergeFrom, h]
 
 /-- **C09 (once), full statement.**  No source contributes the same harmonic at two different
 analysed frequencies (a single-frequency source is active at one analysed frequency only). -/
 def C09_once_statement : Prop :=
   ∀ (cs : List FComp) (wmax wres : ℚ) (ws : List ℚ), 0 ≤ wres →
-    frequencyComponents cs wmax = .ok ws →
+    frequencyComponents cs wmax wres = .ok ws →
     ∀ c ∈ cs, ∀ s, c.toSrc? = some s → ∀ w1 ∈ ws, ∀ w2 ∈ ws, ∀ n,
       s.activeIndex w1 wres = some n → s.activeIndex w2 wres = some n → w1 = w2
 
-/-- **C09 (finding).**  Two sinusoidal sources at `w = 1` and `w = 1 + 10⁻⁹` (resolution `10⁻³`):
-both frequencies are analysed (the set merges only *equal* values) and the first source is
-active at both — its response is counted twice. -/
+/-- **C09 (residual finding after fix 6e56e9e: chains).**  Sources at `0`, `0.0009` and `0.0011` with
+resolution `0.001`: the merge keeps `0` and `0.0011` (they are more than the resolution apart), and
+the source at `0.0009` lies within the resolution of *both* — it is active at both analysed
+frequencies and its response is still counted twice. -/
 theorem C09_once_counterexample : ¬ C09_once_statement := by
   intro h
-  let c1 : FComp := ⟨"ac_voltage_source", some 1⟩
-  let c2 : FComp := ⟨"ac_voltage_source", some (1 + 1 / 10 ^ 9)⟩
-  have hok : ∃ ws, frequencyComponents [c1, c2] 10 = .ok ws := by
-    cases hf : frequencyComponents [c1, c2] 10 with
-    | ok ws => exact ⟨ws, rfl⟩
-    | error e => simp [frequencyComponents, allFrequencies, FComp.frequencies, FComp.isPeriodic, c1, c2] at hf
-  obtain ⟨ws, hws⟩ := hok
-  have m1 : (1 : ℚ) ∈ ws :=
-    (C09_freqs_mem _ _ _ hws 1).mpr ⟨c1, by simp, 1, rfl, Or.inl ⟨by simp [FComp.isPeriodic, c1], rfl⟩⟩
-  have m2 : (1 + 1 / 10 ^ 9 : ℚ) ∈ ws :=
-    (C09_freqs_mem _ _ _ hws _).mpr ⟨c2, by simp, _, rfl, Or.inl ⟨by simp [FComp.isPeriodic, c2], rfl⟩⟩
-  have a1 : (⟨false, 1⟩ : Src).activeIndex 1 (1 / 1000) = some 0 := by
-    simp [Src.activeIndex, gateSingle, mfAbsQ]
-  have a2 : (⟨false, 1⟩ : Src).activeIndex (1 + 1 / 10 ^ 9) (1 / 1000) = some 0 := by
+  let c1 : FComp := ⟨"ac_voltage_source", some 0⟩
+  let c2 : FComp := ⟨"ac_voltage_source", some (9 / 10000)⟩
+  let c3 : FComp := ⟨"ac_voltage_source", some (11 / 10000)⟩
+  have hws : frequencyComponents [c1, c2, c3] 10 (1 / 1000) = .ok [0, 11 / 10000] := by
+    have hall : allFrequencies 10 [c1, c2, c3] = .ok [0, 9 / 10000, 11 / 10000] := by
+      simp [allFrequencies, FComp.frequencies, FComp.isPeriodic, c1, c2, c3]
+    have hsort : sortQ [0, 9 / 10000, 11 / 10000] = [0, 9 / 10000, 11 / 10000] := by
+      have e1 : insertQ (11 / 10000) [] = [11 / 10000] := rfl
+      have e2 : insertQ (9 / 10000) [11 / 10000] = [9 / 10000, 11 / 10000] :=
+        insertQ_le (by norm_num) _
+      have e3 : insertQ 0 [9 / 10000, 11 / 10000] = [0, 9 / 10000, 11 / 10000] :=
+        insertQ_le (by norm_num) _
+      simp only [sortQ, e1, e2, e3]
+    have hmerge : mergeRes (1 / 1000) [0, 9 / 10000, 11 / 10000] = [0, 11 / 10000] := by
+      have m1 : mergeFrom (1 / 1000) 0 [9 / 10000, 11 / 10000] = mergeFrom (1 / 1000) 0 [11 / 10000] :=
+        mergeFrom_drop (by norm_num) _
+      have m2 : mergeFrom (1 / 1000) 0 [11 / 10000] = 11 / 10000 :: mergeFrom (1 / 1000) (11 / 10000) [] :=
+        mergeFrom_keep (by norm_num) _
+      show (0 : ℚ) :: mergeFrom (1 / 1000) 0 [9 / 10000, 11 / 10000] = [0, 11 / 10000]
+      rw [m1, m2]; rfl
+    simp only [frequencyComponents, hall, hsort, hmerge]
+  have a1 : (⟨false, 9 / 10000⟩ : Src).activeIndex 0 (1 / 1000) = some 0 := by
     simp [Src.activeIndex, gateSingle, mfAbsQ]; norm_num
-  have := h [c1, c2] 10 (1 / 1000) ws (by norm_num) hws c1 (by simp) ⟨false, 1⟩
-    (by simp [FComp.toSrc?, FComp.isPeriodic, c1]) 1 m1 _ m2 0 a1 a2
+  have a2 : (⟨false, 9 / 10000⟩ : Src).activeIndex (11 / 10000) (1 / 1000) = some 0 := by
+    simp [Src.activeIndex, gateSingle, mfAbsQ]; norm_num
+  have := h [c1, c2, c3] 10 (1 / 1000) _ (by norm_num) hws c2 (by simp) ⟨false, 9 / 10000⟩
+    (by simp [FComp.toSrc?, FComp.isPeriodic, c2]) 0 (by simp) (11 / 10000) (by simp) 0 a1 a2
   norm_num at this
 
 theorem mfAbsQ_eq_abs (x : ℚ) : mfAbsQ x = |x| := by
@@ -297,44 +349,60 @@ theorem zip_reverse' {α β : Type} (l1 : List α) (l2 : List β) (h : l1.length
     l1.reverse.zip l2.reverse = (l1.zip l2).reverse := by
   unfold List.zip; exact (List.reverse_zipWith h).symm
 
-/-- **C09 (two-sided mirror).**  The two lines of solution.py:117-119, applied to line values:
-the two-sided series consists of `(−w_k, conj X_k / 2)` for `k = n−1, …, 1` followed by
-`(w_k, X_k / 2)` for `k = 0, …, n−1`. -/
-theorem C09_two_sided_mirror (ws : List ℚ) (X : List GQ) (hlen : ws.length = X.length) :
-    (mirrorW ws).zip (mirrorX X)
-      = (((linesOf ws X).drop 1).reverse.map fun p => (-p.1, halfOf (GQ.conj p.2)))
-        ++ (linesOf ws X).map fun p => (p.1, halfOf p.2) := by
-  unfold mirrorW mirrorX linesOf
-  rw [List.map_append, List.zip_append (by simp [hlen])]
+theorem dcCount_le (ws : List ℚ) : dcCount ws ≤ ws.length := by
+  cases ws with
+  | nil => simp [dcCount]
+  | cons w t => simp only [dcCount]; split <;> simp
+
+/-- **C09 (two-sided spectrum).**  `_series` of solution.py (after fix 0a2e57e) on line values: the
+two-sided series consists of `(−w_k, conj X_k / 2)` for the AC lines in decreasing order, the DC line
+`(0, X₀)` *unchanged* when one is listed, and `(w_k, X_k / 2)` for the AC lines.  (`d = dcCount ws`
+is 1 when the first analysed frequency is 0, else 0 — then the lowest line is mirrored too.) -/
+theorem C09_two_sided (ws : List ℚ) (X : List GQ) (hlen : ws.length = X.length) :
+    (mirrorW ws).zip (mirrorX ws X)
+      = (((linesOf ws X).drop (dcCount ws)).reverse.map fun p => (-p.1, halfOf (GQ.conj p.2)))
+        ++ (linesOf ws X).take (dcCount ws)
+        ++ ((linesOf ws X).drop (dcCount ws)).map fun p => (p.1, halfOf p.2) := by
+  have hd := dcCount_le ws
+  set d := dcCount ws with hdd
+  have htake : ws.length - (ws.drop d).length = d := by simp; omega
+  have hdz : (ws.drop d).zip (X.drop d) = (ws.zip X).drop d := by
+    unfold List.zip; exact List.drop_zipWith.symm
+  have htz : (ws.take d).zip (X.take d) = (ws.zip X).take d := by
+    unfold List.zip; exact List.take_zipWith.symm
+  have e1 : mirrorW ws = ((ws.drop d).reverse.map fun w => -w) ++ (ws.take d ++ ws.drop d) := by
+    simp only [mirrorW, ← hdd, List.take_append_drop]
+  have e2 : mirrorX ws X = ((X.drop d).reverse.map fun z => GQ.ofRat (1/2) * GQ.conj z)
+      ++ (X.take d ++ (X.drop d).map fun z => GQ.ofRat (1/2) * z) := by
+    simp only [mirrorX, ← hdd, htake, List.append_assoc]
+  rw [e1, e2, List.zip_append (by simp [hlen]), List.zip_append (by simp [hlen])]
+  unfold linesOf
+  rw [← hdz, ← htz, List.append_assoc]
   congr 1
-  · have hd : (ws.drop 1).zip (X.drop 1) = (ws.zip X).drop 1 := by
-      unfold List.zip; exact List.drop_zipWith.symm
-    rw [List.map_map, List.zip_map, zip_reverse' _ _ (by simp [hlen]), hd]
+  · rw [List.zip_map, zip_reverse' _ _ (by simp [hlen])]
     rfl
-  · rw [← List.map_id ws, List.zip_map]
-    simp only [List.map_id]
+  · congr 1
+    rw [← List.map_id (ws.drop d), List.zip_map, List.map_id]
     rfl
 
-/-- **C09 (finding: the mirror halves the DC line).**  For a circuit with a DC component the
-two-sided series has `c(0) = X₀/2`, not `X₀`. -/
-theorem C09_two_sided_dc_counterexample :
-    ∃ (ws : List ℚ) (X : List GQ), ws = [0, 1] ∧ X = [⟨2, 0⟩, ⟨1, 1⟩] ∧
-      (mirrorW ws).zip (mirrorX X) = [(-1, ⟨1/2, -1/2⟩), (0, ⟨1, 0⟩), (1, ⟨1/2, 1/2⟩)] ∧
-      ((0 : ℚ), (⟨2, 0⟩ : GQ)) ∉ (mirrorW ws).zip (mirrorX X) := by
-  refine ⟨_, _, rfl, rfl, ?_, ?_⟩
-  · simp [mirrorW, mirrorX, GQ.conj, GQ.ofRat, GQ.mul_def]; norm_num
-  · simp [mirrorW, mirrorX, GQ.conj, GQ.ofRat, GQ.mul_def]
+/-- **C09 (two-sided, DC).**  When a DC line is listed it is reported unchanged: `c(0) = X₀`. -/
+theorem C09_two_sided_dc (ws : List ℚ) (X : List GQ) (x0 : GQ) (hlen : ws.length = X.length) :
+    ((0 : ℚ), x0) ∈ (mirrorW (0 :: ws)).zip (mirrorX (0 :: ws) (x0 :: X)) := by
+  rw [C09_two_sided _ _ (by simp [hlen])]
+  simp [linesOf, dcCount]
 
-/-- **C09 (two-sided), statement the property demands of the code as written.** -/
-def C09_two_sided_statement : Prop :=
-  ∀ ws : List ℚ, ∃ l, twoSidedAsWritten ws = .ok l
-
-/-- **C09 (finding: the two-sided option raises).**  As written, the mirror is applied to the
-array of solution objects: for every non-empty frequency list the constructor raises `TypeError`. -/
-theorem C09_two_sided_as_written_counterexample : ¬ C09_two_sided_statement := by
-  intro h
-  obtain ⟨l, hl⟩ := h [0]
-  simp [twoSidedAsWritten] at hl
+/-- **C09 (two-sided, AC lines).**  Every AC line `(w, x)` appears as `c(w) = x/2` and `c(−w) = conj x / 2`. -/
+theorem C09_two_sided_lines (ws : List ℚ) (X : List GQ) (hlen : ws.length = X.length) (w : ℚ) (x : GQ)
+    (h : (w, x) ∈ (linesOf ws X).drop (dcCount ws)) :
+    (w, halfOf x) ∈ (mirrorW ws).zip (mirrorX ws X) ∧
+    (-w, halfOf (GQ.conj x)) ∈ (mirrorW ws).zip (mirrorX ws X) := by
+  rw [C09_two_sided ws X hlen]
+  constructor
+  · apply List.mem_append_right
+    exact List.mem_map.mpr ⟨(w, x), h, rfl⟩
+  · apply List.mem_append_left
+    apply List.mem_append_left
+    exact List.mem_map.mpr ⟨(w, x), List.mem_reverse.mpr h, rfl⟩
 
 /-! ### non-vacuity -/
 
